@@ -524,6 +524,10 @@ C19Event(o, k, b) ==
                        (* exponential mapping: sign only; a zero multiplier maps everything to zero *)
                        /\ (PGet(FunParams(fd), "multiplier", 0) = 0 => got = 0)
                        /\ ((PGet(FunParams(fd), "multiplier", 0) > 0 /\ PGet(FunParams(fd), "alpha", 0) > 0) => (IF better THEN got >= 0 ELSE got <= 0))
+                       (* m (e^(alpha x) - 1) vanishes at x = 0 only: for |alpha|, |m| >= 1/2 and a scaled difference of at least *)
+                       (* a quarter of the range its size is at least (1 - e^(-1/8)) / 2 > 0.05, far above the rounding slack    *)
+                       /\ ((NAbs(PGet(FunParams(fd), "multiplier", 0)) * 2 >= u /\ NAbs(PGet(FunParams(fd), "alpha", 0)) * 2 >= u
+                            /\ NAbs(den) > 8 * Slack /\ 4 * NAbs(num) >= NAbs(den) + 8 * Slack) => NAbs(got) * 32 > u)
                    ELSE IF den = 0 THEN Near(got, 0 - PGet(FunParams(fd), "b", 0), Slack)      \* scale 0: difference 0 -> -loss(0)
                    ELSE LET tol == Slack * NAbs(den) + 2 * NAbs(PGet(FunParams(fd), "a", 0)) + 2 * NAbs(got) + 2 * NAbs(PGet(FunParams(fd), "b", 0)) + u IN
                         IF better THEN Near(got * den, LinVal2(FunParams(fd), num, den, u), tol)
